@@ -93,7 +93,7 @@ func directC19render(g *G, rep *Report) {
 			for k := 0; k < pad; k++ {
 				b.WriteString("// pad\n")
 			}
-			b.WriteString("/**\n * @param? n\n * @param? l\n * @param? s\n * @param? u\n */\n{template .t}\n{if false}{$n}{$l}{$s}{$u}{/if}\n")
+			b.WriteString("/**\n * @param? n\n * @param? l\n * @param? s\n * @param? u\n * @param? c\n * @param? c2\n */\n{template .t}\n{if false}{$n}{$l}{$s}{$u}{$c}{$c2}{/if}\n")
 			body := r.Intn(4)
 			for k := 0; k < body; k++ {
 				b.WriteString("line {$s} " + strconv.Itoa(k) + "\n")
@@ -106,7 +106,22 @@ func directC19render(g *G, rep *Report) {
 					b.WriteString(fail + "\n")
 				}
 			} else {
-				b.WriteString("a {call ns" + strconv.Itoa(d+1) + ".t data=\"all\"/} b\n")
+				callee := "ns" + strconv.Itoa(d+1) + ".t"
+				switch r.Intn(4) {
+				case 0:
+					b.WriteString("a {call " + callee + " data=\"all\"/} b\n")
+				case 1:
+					// a content param spanning several lines: the failing command is still the {call}
+					b.WriteString("a {call " + callee + " data=\"all\"}\n{param c}\n  content {$s}\n  {if true}more{/if}\n  last\n{/param}\n{/call} b\n")
+					rep.Distribution["call-with-content-param"]++
+				case 2:
+					// value params on lines of their own
+					b.WriteString("{call " + callee + "}\n{param n: $n /}\n{param l: $l /}\n{param s: $s /}\n{/call}\n")
+					rep.Distribution["call-with-value-params"]++
+				default:
+					b.WriteString("{call " + callee + " data=\"all\"}\n{param c}{let $w}\nw{/let}{$w}\n{/param}\n{param c2}\n{$s}{/param}\n{/call}\n")
+					rep.Distribution["call-with-content-param"]++
+				}
 			}
 			if d == 0 {
 				wantLine = line
